@@ -166,6 +166,9 @@ const (
 )
 
 func (ex *Exec) rtPanic(format string, args ...interface{}) {
+	if ex.merging > 0 {
+		panic(mergeBail{})
+	}
 	panic(runtimeErr{fmt.Sprintf(format, args...)})
 }
 
